@@ -9,6 +9,7 @@ import (
 	"os"
 	"os/exec"
 	"strings"
+	"syscall"
 )
 
 var driverPath string
@@ -19,6 +20,7 @@ func runDriver(lines []string) ([]string, error) {
 		return nil, nil
 	}
 	cmd := exec.Command(driverPath)
+	cmd.SysProcAttr = &syscall.SysProcAttr{Pdeathsig: syscall.SIGKILL} // no orphaned drivers when the harness is killed
 	var in bytes.Buffer
 	for _, l := range lines {
 		in.WriteString(l)
